@@ -25,7 +25,7 @@ class C16(BaseCheck):
   REQUIRED_CLASSES = ('singleton', 'refcount', 'shared', 'concurrent-first-requests', 'replaced-after-failure',
                       'surplus-close', 'reopen-after-last-close', 'same-key', 'different-key',
                       'underlying-closed-while-held', 'underlying-state-changes',
-                      'requester-abandoned-while-opening', 'several-holders', 'request-after-last-close', 'holder-gone-before-connect', 'concurrent-holders', 'open-during-yielding-last-close', 'open-count-zero-while-held', 'underlying-open-raises',
+                      'requester-abandoned-while-opening', 'several-holders', 'holder-closes-while-connecting', 'request-after-last-close', 'holder-gone-before-connect', 'concurrent-holders', 'open-during-yielding-last-close', 'open-count-zero-while-held', 'underlying-open-raises',
                       'surplus-close-from-inside-close', 'underlying-close-raises', 'underlying-open-fails-later')
   QUICK_CASES = 1500
   THOROUGH_CASES = 120000
@@ -172,6 +172,19 @@ class C16(BaseCheck):
       r['g'] = gevent.spawn(pool.AsyncProcessRequest, stack, msg, None, {})
       return r
 
+    if open_delay and idx % 4 == 3:
+      # the only holder opens the pool and closes it again while the connection is still being made
+      # (no request is waiting for it): that connection is the pool's, and closed with it
+      classes.add('holder-closes-while-connecting')
+      pool.Open()
+      env.advance(open_delay * 0.2)
+      mid_ = [c for c in conns if c._state == IDLE and c.open_ar is not None and not c.open_ar.ready()]
+      pool.Close()
+      env.advance(open_delay * 2 + 0.1)
+      out.obligations += 1
+      if mid_ and live():
+        out.violate('singleton:leaked-after-close', 'connections %r, still being made when the last holder closed the pool, are '
+                    'up afterwards' % ([c.id for c in live()],), {'closed_while_connecting': True})
     use_pool_open = rng.random() < 0.5
     extra_holders = 0
     if use_pool_open:
